@@ -205,3 +205,67 @@ Proof.
   { split. apply Rmult_le_pos; lra. apply Rmult_le_compat_l; lra. }
   lra.
 Qed.
+
+(* ---------------------------------------------------------------- the repaired tests (fixes/C08_funit_allowance.patch,
+   fixes/C08_dunit_allowance.patch): the scaled radius is inflated by 8 DBL_EPSILON (ab + 1) = 16 u (ab + 1) before the two
+   comparisons.  S = the computed A + 1, E = the computed 16 u S, R' = the computed R + E.  Only lower bounds of the computed
+   quantities matter.  Conclusion: the FULL factor, N = n * r < | |z| - 1 |, for every n >= 1 and every radius. *)
+Lemma umul : forall u X, 0 < u <= / 1048576 -> 0 <= X -> 0 <= u * X <= X / 1048576.
+Proof.
+  intros u X [U0 U1] HX. split. apply Rmult_le_pos; lra.
+  assert (u * X <= / 1048576 * X) by (apply Rmult_le_compat_r; lra). lra.
+Qed.
+
+(* the repaired tests: rad' = fl (rad + 8 DBL_EPSILON (ab + 1)), i.e. E = 16 u S with S = fl (A + 1) *)
+Lemma unit_dec_real_fixed : forall u eta N Z R A S E R' T1 T2,
+  0 < u <= / 1048576 -> 0 <= eta <= u * u -> 0 <= N -> 0 <= Z -> 0 <= A -> 0 <= R ->
+  N * (1 - u) - eta <= R ->
+  Rabs (A - Z) <= 6 * u * Z + eta ->
+  (A + 1) * (1 - 2 * u) <= S -> 16 * u * S * (1 - 2 * u) <= E ->
+  (R + E) * (1 - 2 * u) <= R' -> (R' + 1) * (1 - 2 * u) <= T1 -> (R' + A) * (1 - 2 * u) <= T2 ->
+  T1 < A \/ T2 < 1 ->
+  (N + 1 < Z /\ 1 < A) \/ (Z + N < 1 /\ A < 1).
+Proof.
+  intros u eta N Z R A S E R' T1 T2 U [E0 E1] HN HZ A0 R0 HR HA HS HE HR' HT1 HT2 H.
+  pose proof U as [U0 U1].
+  apply Rabs_le_inv in HA.
+  pose proof (umul u u U (Rlt_le _ _ U0)) as UU.
+  pose proof (umul u N U HN) as uN. pose proof (umul u A U A0) as uA. pose proof (umul u Z U HZ) as uZ.
+  pose proof (umul u eta U E0) as uE.
+  pose proof (umul u (u * N) U (proj1 uN)) as uuN.
+  (* S, E *)
+  assert (S1 : (A + 1) * (1 - / 524288) <= S).
+  { assert ((A + 1) * (1 - / 524288) <= (A + 1) * (1 - 2 * u)) by (apply Rmult_le_compat_l; lra). lra. }
+  assert (S0 : 0 <= S) by lra.
+  pose proof (umul u S U S0) as uS.
+  assert (E2 : 1599 / 100 * (u + u * A) <= E).
+  { assert (16 * u * ((A + 1) * (1 - / 524288)) <= 16 * u * S) by (apply Rmult_le_compat_l; lra).
+    assert (0 <= 16 * u * S) by (apply Rmult_le_pos; lra).
+    assert (16 * u * S * (1 - / 524288) <= 16 * u * S * (1 - 2 * u)) by (apply Rmult_le_compat_l; lra). lra. }
+  assert (Ep : 0 <= E) by lra.
+  pose proof (umul u E U Ep) as uEE.
+  (* R' *)
+  assert (K1 : (N * (1 - u) - eta) * (1 - 2 * u) <= R * (1 - 2 * u)) by (apply Rmult_le_compat_r; lra).
+  assert (R'1 : N - 3 * (u * N) - eta + 99999 / 100000 * E <= R') by lra.
+  assert (R'0 : 0 <= R').
+  { assert (0 <= (R + E) * (1 - 2 * u)) by (apply Rmult_le_pos; lra). lra. }
+  assert (R'15 : 15 * u <= R') by lra.
+  pose proof (umul u R' U R'0) as uR'.
+  destruct H as [H|H].
+  - left.
+    assert (A1 : 1 < A) by lra.
+    split; [|exact A1].
+    destruct (Rlt_le_dec (N + 1) Z) as [|C]; [assumption|exfalso].
+    assert (K2 : (N - 3 * (u * N) - eta + 99999 / 100000 * E) * (1 - 2 * u) <= R' * (1 - 2 * u)) by (apply Rmult_le_compat_r; lra).
+    assert (T1l : N + 1 - 5 * (u * N) - eta - 2 * u + 9999 / 10000 * E <= T1) by lra.
+    assert (K3 : Z * (1 + 6 * u) <= (N + 1) * (1 + 6 * u)) by (apply Rmult_le_compat_r; lra).
+    assert (K4 : u * (N + 1 - 5 * (u * N) - eta - 2 * u) <= u * A) by (apply Rmult_le_compat_l; lra).
+    lra.
+  - right.
+    assert (A1 : A < 1) by lra.
+    split; [|exact A1].
+    destruct (Rlt_le_dec (Z + N) 1) as [|C]; [assumption|exfalso].
+    assert (K3 : (1 - N) * (1 - 6 * u) <= Z * (1 - 6 * u)) by (apply Rmult_le_compat_r; lra).
+    assert (K5 : (N - 3 * (u * N) - eta + 99999 / 100000 * E + A) * (1 - 2 * u) <= (R' + A) * (1 - 2 * u)) by (apply Rmult_le_compat_r; lra).
+    lra.
+Qed.
